@@ -386,9 +386,9 @@ func checkC01(c *core.Ctx) {
 	s.Initialize(wire.InitOpts{})
 	maxUnits := 3
 	pairUnits := 1
-	depth := 3
+	depth := 4
 	if c.Thorough() {
-		maxUnits, pairUnits, depth = 4, 2, 4
+		maxUnits, pairUnits, depth = 4, 2, 5
 	}
 	// A1: every single change on every document of <= maxUnits units
 	docs := c01Docs(maxUnits)
